@@ -11,6 +11,22 @@ TRANSPARENT = {"Uint128", "Uint64", "Uint256", "Uint512", "Decimal", "Decimal256
                "CanonicalAddr"}
 
 
+def _last_turbofish(callee):
+    """type arguments of the last path segment: `a::b::<X, Y>` -> ["X", "Y"] (lifetimes dropped); None when absent"""
+    c = callee.strip()
+    if not c.endswith(">"): return None
+    d = 0
+    for i in range(len(c) - 1, -1, -1):
+        if c[i] == ">" and (i == 0 or c[i - 1] not in "-="): d += 1
+        elif c[i] == "<":
+            d -= 1
+            if d == 0:
+                if i >= 2 and c[i - 2:i] == "::":
+                    return [t.strip() for t in split_top(c[i + 1:-1]) if t.strip() and not t.strip().startswith("'")]
+                return None
+    return None
+
+
 def _balanced_parens(t):
     d = 0
     for c in t:
@@ -258,6 +274,8 @@ class Interp:
                     for v_ in td.variants:
                         if v_.name == segs[-1] and v_.kind == "unit": return EnumV(td.name, segs[-1], ())
             return FnItem((s, cur))
+        if name.startswith("<") and " as " in name and re.search(r">::\w+$", name):
+            return FnItem((s, cur))          # `<String as From<&str>>::from` passed as a function value
         raise Unsupported(f"const {s}")
 
     # ================================================================ rvalues
@@ -462,7 +480,28 @@ class Interp:
         raise Unsupported(f"binop {op}")
 
     # ================================================================ control
-    def call_mir(self, ctx, fn, args):
+    def call_mir(self, ctx, fn, args, targs=None):
+        """targs: the turbofish type arguments written at the call site (`helper::<Listed>`): they instantiate the callee's own
+        type parameters, so that `<S as Trait>::method` inside its body can be resolved (MIR is not monomorphised)"""
+        tp = self.prog.bind_tparams(fn, targs) if targs else None
+        if not tp: return self._run_mir(ctx, fn, args)
+        stack = self.__dict__.setdefault("_tparams", [])
+        stack.append(tp)
+        try:
+            return self._run_mir(ctx, fn, args)
+        finally:
+            stack.pop()
+
+    def subst_tparams(self, callee):
+        stack = self.__dict__.get("_tparams")
+        if not stack: return callee
+        for tp in reversed(stack):
+            for k, v in tp.items():
+                if re.search(r"(?<![\w:])" + re.escape(k) + r"(?![\w])", callee):
+                    callee = re.sub(r"(?<![\w:])" + re.escape(k) + r"(?![\w])", v, callee)
+        return callee
+
+    def _run_mir(self, ctx, fn, args):
         fr = Frame(fn)
         if len(args) != len(fn.params):
             raise Unsupported(f"arity mismatch calling {fn.name}: {len(args)} vs {len(fn.params)}")
@@ -500,7 +539,7 @@ class Interp:
                 dest, callee, aops, ret = term[1], term[2], term[3], term[4]
                 args2 = [self.operand(ctx, fr, a) for a in aops]
                 if callee[0] == "direct":
-                    r = self.call(ctx, callee[1], args2, fr.fn.crate)
+                    r = self.call(ctx, self.subst_tparams(callee[1]), args2, fr.fn.crate)
                 else:
                     f = self.operand(ctx, fr, callee[1])
                     r = self.call_value(ctx, f, args2)
@@ -557,7 +596,7 @@ class Interp:
             if r is not NotImplemented: return r
         f = self.prog.resolve(callee, cur_crate)
         if f is not None and f.blocks:
-            return self.call_mir(ctx, f, args)
+            return self.call_mir(ctx, f, args, _last_turbofish(callee))
         if f is not None and f.kind == "fn" and not f.blocks:
             raise Unsupported(f"empty MIR body for {callee}")
         h = self.models.lookup_fallback(callee)
